@@ -4,6 +4,8 @@
 #define TETL_ALGORITHM_STABLE_PARTITION_HPP
 
 #include <etl/_algorithm/rotate.hpp>
+#include <etl/_iterator/distance.hpp>
+#include <etl/_iterator/next.hpp>
 
 namespace etl {
 
@@ -15,14 +17,14 @@ namespace etl {
 template <typename BidirIt, typename Predicate>
 constexpr auto stable_partition(BidirIt f, BidirIt l, Predicate p) -> BidirIt
 {
-    auto const n = l - f;
+    auto const n = etl::distance(f, l);
     if (n == 0) {
         return f;
     }
     if (n == 1) {
-        return f + p(*f);
+        return p(*f) ? etl::next(f) : f;
     }
-    auto const m = f + (n / 2);
+    auto const m = etl::next(f, n / 2);
     return etl::rotate(etl::stable_partition(f, m, p), m, etl::stable_partition(m, l, p));
 }
 
